@@ -45,6 +45,7 @@ func TestC05(t *testing.T) {
 		}
 		c05Fresh(m, v, rng, et)
 	}
+	c05FreshMixed(v, rng)
 	v.ModelAsks = m.N
 	v.Write(t)
 }
@@ -88,6 +89,45 @@ func c05Case(m *Model, v *Verdict, rng *RNG, et int32, l int, usage uint32) {
 			u = ">=128"
 		}
 		v.Violate("failing-input", fmt.Sprintf("c05:spec->go:et=%d:usage%s", et, u), "the library does not decrypt what the independent RFC implementation encrypted to the same plaintext", map[string]string{"op": op2, "ct": mc, "go": got2, "want": want})
+	}
+}
+
+// c05FreshMixed: the confounder of every message is fresh whatever was encrypted before it: runs of
+// encryptions of one plaintext under one key, started after 0..3 encryptions under etypes with another
+// confounder size, and interleaved with them, never repeat a ciphertext.
+func c05FreshMixed(v *Verdict, rng *RNG) {
+	runs := 700
+	if Thorough() {
+		runs = 5000
+	}
+	for _, et := range allEtypes {
+		for pre := 0; pre <= 3; pre++ {
+			key := randKey(rng, et)
+			pt := rng.Bytes(24)
+			others := []int32{23, 16, 18, 19}
+			for i := 0; i < pre; i++ {
+				o := others[(i+int(et))%len(others)]
+				goEncrypt(o, randKey(rng, o), rng.Bytes(5), 3)
+			}
+			seen := map[string]int{}
+			for i := 0; i < runs; i++ {
+				if pre == 3 && i%97 == 96 {
+					o := others[(i/97)%len(others)]
+					goEncrypt(o, randKey(rng, o), rng.Bytes(5), 3)
+				}
+				ct, err, pan := goEncrypt(et, key, pt, 3)
+				if err != nil || pan != "" {
+					return
+				}
+				if j, dup := seen[string(ct)]; dup {
+					v.Violate("failing-input", fmt.Sprintf("c05:confounder-repeats-mixed:et=%d", et), "two encryptions of the same plaintext under the same key produced the same ciphertext (the confounder was reused)",
+						map[string]string{"et": itoa(et), "after_other_etype_encryptions": itoa(int32(pre)), "first": itoa(int32(j)), "second": itoa(int32(i)), "key": X(key), "pt": X(pt), "ct": X(ct)})
+					return
+				}
+				seen[string(ct)] = i
+			}
+			v.Case(fmt.Sprintf("fresh-mixed/%d/%d", et, pre), fmt.Sprintf("fresh after %d other-etype encryptions et=%d (%d msgs)", pre, et, runs))
+		}
 	}
 }
 
